@@ -720,6 +720,35 @@ def gen_table_case(rng, exhaustive_index=None):
     return case
 
 
+def enum_table_cases():
+    """EXHAUSTIVE small scope: every four-entry table over the binary alphabets  time increment in {0, 1},  value in
+    {0, 1},  strategy in {hold, jump, linear} (no linear entry at its predecessor's time), first entry at t = 0, non-zero
+    duration; each once plain and once time-reversed (1872 tables, 3744 cases)."""
+    import itertools
+    out = []
+    for incs in itertools.product([0, 1], repeat=3):
+        if sum(incs) == 0:
+            continue
+        times = [0]
+        for d in incs:
+            times.append(times[-1] + d)
+        for vals in itertools.product([0, 1], repeat=4):
+            for interps in itertools.product(INTERPS, repeat=3):
+                if any(i == 'linear' and times[j + 1] == times[j] for j, i in enumerate(interps)):
+                    continue
+                entries = [[C(times[0]), C(vals[0]), 'hold']] + [[C(times[j + 1]), C(vals[j + 1]), interps[j]] for j in range(3)]
+                triple = times.count(times[-1]) >= 3
+                for rev in (False, True):
+                    pt = {'k': 'table', 'chs': [['A', entries]]}
+                    if rev:
+                        pt = {'k': 'rev', 'body': pt}
+                    case = {'pt': pt, 'params': {}, 'cm': [], 'tables': True}
+                    if triple:
+                        case['final_triple'] = True
+                    out.append(case)
+    return out
+
+
 # ---- malformed stream -----------------------------------------------------------------------------------------------
 def prune_maps(n):
     """drop parameter-mapping entries the body no longer needs (MappingPT rejects them at construction)"""
